@@ -1,9 +1,12 @@
 """C17 - incremental text encode/decode is chunk-boundary independent (rxsci/data/codec.py; the decode stage
 also as rxsci/container/json.py load_from_file applies it to the 64 KiB read blocks of a file)."""
+import base64
 import codecs
+import gzip
 import itertools
 import json as pyjson
 import os
+import zlib
 from harness import core
 from harness.rxutil import run_timed
 from harness.core import c_list, c_nlist, c_bool
@@ -37,6 +40,23 @@ RULE = ('cases: (encoding in utf-8/utf-16/utf-32/latin-1, list of strings, byte-
         'feasible alignments for utf-32 and latin-1) falls exactly on every multiple of 65536: every k for every '
         'character width; the objects read back must equal the objects written, and rs.data.decode run on the '
         'real read blocks is judged and compared with the model like any other chunking (CFileRL). '
+        'SCALE (kind scale; about 20 cases in the quick tier, about 100 in thorough; stored as generation parameters, '
+        'expanded without any random choice): periodic texts of 1-3 segments (random patterns of the pieces above, '
+        'or of code points above U+FFFF only) of 64 KiB up to 16 MiB. big-chunk/astral: byte chunks of 64 KiB, 128 KiB '
+        'and 1 MiB (some cases: 1, 2 or up to 4095 bytes more, or 1 less) that arrive while the decoder holds a '
+        'partial character - a first cut at an odd offset / between the surrogates (utf-16), at offset 1-3 of a '
+        'unit (utf-32), inside a 2/3/4-byte sequence (utf-8), in some cases inside the BOM - with a chunk of 1, 3, '
+        '5 or 7 bytes between two large ones so that they arrive at different alignments; the rest in one chunk or '
+        'in chunks of 1-5 / 4096 / 65536 bytes. big-string: 1-2 strings of 1-16 MiB given to encode, the bytes '
+        're-chunked into 64 KiB / 128 KiB / 1 MiB blocks that all start and end inside a character. one-char: '
+        '1025-20000 one-character strings, the bytes in chunks of 1, 2, 3 or 5 bytes. dump: 1025-20000 items (2000 '
+        'and 5000 in every tier; around 1024 and 2048 in thorough) written by rs.container.json.dump_to_file (or '
+        'json.dump | data.encode | file.write), utf-16 / utf-32 / utf-8 / latin-1, plain or gzip: the file must be '
+        'the one-shot encoding of the JSON lines (BOM once, at the front), every line must be its item, '
+        'load_from_file must return the items, and encode / decode run on the lines / the 64 KiB blocks are judged '
+        'as above. All scale cases are judged by the one-shot codec; stream cases of up to 300 KiB (thorough: '
+        '1.2 MiB) are also evaluated in Coq (CScale: everything flat and run-length coded), the larger ones and the '
+        'dump cases are not (CSkip). '
         'non-trivial = well-formed case with >= 2 chunks and at least one cut strictly inside a character or '
         'inside the BOM (files: a read-block boundary strictly inside a character); distinct = distinct case JSON')
 TRUSTED = ['modelled not verified: CPython 3.12 C codecs (utf_8/utf_16/utf_32/latin_1 encode and stateful decode), '
@@ -287,6 +307,495 @@ def gen_files(rng, tier):
     return out
 
 
+# --- SCALE: the same property on inputs of 64 KiB ... several MiB and of thousands of items ---------------
+# A scale case is stored in GENERATED form (the replay file holds the parameters, run_impl expands them; nothing
+# is random at expansion time):
+#   sub 'stream': the text is segs = [[pattern code points, repetitions], ...] joined; rs.data.encode gets it cut
+#                 into strings of strlens = [[code points, how many strings], ...] (a rest becomes one more
+#                 string); rs.data.decode gets the ONE-SHOT encoding of the text cut into chunks of
+#                 sizes = [[bytes, how many chunks], ...] (a rest becomes one more chunk).
+#   sub 'dump':   n items {"i": i, "t": words[i % len(words)] * (1 + i % 3)} are written with
+#                 rs.container.json.dump_to_file (encoding, optional gzip) and read back.
+# The observation holds everything that was emitted, loss-free but compressed (zlib+base64 of the joined output
+# and the run-length coded item lengths).  model = is the case also evaluated in Coq (size limit)?
+BIG = [64 * 1024, 128 * 1024, 1024 * 1024]
+SCALE_ENCS = ['utf-8', 'utf-16', 'utf-32']
+MODEL_LIMIT = {'quick': 300 * 1024, 'thorough': 1200 * 1024, 'search': 0}
+ASTRAL = [0x10000, 0x10348, 0x1F600, 0x1F469, 0x10FFFF]
+
+
+def pack(b):
+    return base64.b64encode(zlib.compress(b, 1)).decode('ascii')
+
+
+def unpack(s):
+    return zlib.decompress(base64.b64decode(s))
+
+
+def pack_text(t):
+    return pack(t.encode('utf-8', 'surrogatepass'))
+
+
+def unpack_text(s):
+    return unpack(s).decode('utf-8', 'surrogatepass')
+
+
+def rl1(xs):
+    """run-length form [[value, repetitions], ...] of a list of numbers"""
+    out = []
+    for x in xs:
+        if out and out[-1][0] == x:
+            out[-1][1] += 1
+        else:
+            out.append([x, 1])
+    return out
+
+
+def unrl1(r):
+    return [v for v, n in r for _ in range(n)]
+
+
+def split_by(seq, sizes):
+    """seq (str/bytes) cut into pieces of the run-length coded sizes; what is left becomes one more piece"""
+    out, pos = [], 0
+    for n in unrl1(sizes):
+        out.append(seq[pos:pos + n])
+        pos += n
+    if pos < len(seq):
+        out.append(seq[pos:])
+    return out
+
+
+def scale_text(case):
+    return ''.join(''.join(chr(c) for c in p) * r for p, r in case['segs'])
+
+
+def scale_pattern(rng, enc, astral):
+    if astral:
+        return [rng.choice(ASTRAL + [rng.randrange(0x10000, 0x110000)]) for _ in range(rng.randint(1, 7))]
+    s = ''.join(piece(rng, enc) for _ in range(rng.randint(2, 10)))
+    if enc != 'latin-1':                       # at least one character of more than one byte / unit
+        s = rng.choice(['\xe9', '\u0800', '\u20ac', '\U0001F600', '\U00010348']) + s
+    return cps(s or 'a')
+
+
+def scale_segs(rng, enc, nbytes, astral=False):
+    """1-3 periodic segments whose encoding has at least nbytes bytes"""
+    w = [rng.random() + 0.1 for _ in range(rng.choice([1, 1, 2, 3]))]
+    segs = []
+    for x in w:
+        pat = scale_pattern(rng, enc, astral or (enc != 'latin-1' and rng.random() < 0.15))
+        pb = len(text_of([pat]).encode(LE[enc]))
+        segs.append([pat, int(nbytes * x / sum(w)) // pb + 1])
+    return segs
+
+
+def pending_offset(rng, enc, text, in_bom=False):
+    """a byte offset of the encoded text that lies strictly inside one of its first characters (utf-16: odd, or
+    between the surrogates; utf-32: not a multiple of 4; utf-8: before a continuation byte) or inside the BOM"""
+    nb = len(BOM[enc])
+    if in_bom and nb:
+        return rng.randrange(1, nb)
+    head = text[:64]
+    wide = [j for j, ch in enumerate(head) if len(ch.encode(LE[enc])) > 1]
+    if not wide:
+        return nb + rng.randrange(len(head) + 1)              # latin-1: there is no inside
+    j = rng.choice(wide)
+    return nb + len(head[:j].encode(LE[enc])) + rng.randrange(1, len(head[j].encode(LE[enc])))
+
+
+def small_cuts(rng, total, k):
+    pts = sorted(rng.randint(0, total) for _ in range(k))
+    return [b - a for a, b in zip([0] + pts, pts + [total])]
+
+
+def gen_scale_stream(rng, flavour, enc, bigs, limit, jitter=False):
+    """flavour: big-chunk  chunks of 64 KiB / 128 KiB / 1 MiB, each arriving while the decoder holds a partial
+                           character (an odd small chunk between two of them changes the alignment);
+                astral     the same over a text of code points above 0xFFFF only;
+                big-string one to three strings of several MiB (bigs = [bytes in all, block size]), re-chunked into
+                           large blocks after a cut inside a character (the blocks start and end inside one);
+                one-char   thousands of one-character strings / chunks of one to five bytes"""
+    if flavour == 'one-char':
+        # the periodic text cut to nchar characters: one more segment holds the incomplete last period
+        segs, left = [], bigs[0]
+        for p, r in scale_segs(rng, enc, 4 * bigs[0], astral=enc != 'latin-1' and rng.random() < 0.2):
+            full = min(r, left // len(p))
+            if full:
+                segs.append([p, full])
+                left -= full * len(p)
+            if full < r and left > 0:
+                segs.append([p[:left], 1])
+                left = 0
+            if left <= 0:
+                break
+        nchar = sum(len(p) * r for p, r in segs)
+        nbytes = len(scale_text({'segs': segs}).encode(enc))
+        step = rng.choice([1, 1, 1, 2, 3, 5])
+        strlens, sizes = [[1, nchar]], [step] * -(-nbytes // step)
+    elif flavour == 'big-string':
+        total, block = bigs
+        if jitter:
+            block = max(BIG[0], block + rng.choice([1, -1, 2, rng.randrange(1, 4096)]))
+        segs = scale_segs(rng, enc, total, rng.random() < 0.2 and enc != 'latin-1')
+        text = scale_text({'segs': segs})
+        nbytes, nchar = len(text.encode(enc)), len(text)
+        o = pending_offset(rng, enc, text, in_bom=jitter and rng.random() < 0.2)
+        sizes = small_cuts(rng, o, rng.choice([0, 0, 1, 2])) + [block] * ((nbytes - o) // block)
+        k = rng.choice([1, 1, 2])
+        strlens = [[nchar // k, k]]
+    else:
+        if jitter:
+            bigs = [max(BIG[0], b + rng.choice([0, 0, 1, -1, 2, rng.randrange(1, 4096)])) for b in bigs]
+        gaps = [rng.choice([1, 3, 5, 7]) for _ in bigs[1:]]
+        tail = rng.choice([0, 1, 7, rng.randrange(1, 5000)])
+        segs = scale_segs(rng, enc, 300 + sum(bigs) + sum(gaps) + tail, flavour == 'astral')
+        text = scale_text({'segs': segs})
+        nbytes, nchar = len(text.encode(enc)), len(text)
+        o = pending_offset(rng, enc, text, in_bom=jitter and rng.random() < 0.2)
+        sizes = small_cuts(rng, o, rng.choice([0, 0, 1, 2]))
+        for i, b in enumerate(bigs):
+            sizes += [b] + gaps[i:i + 1]
+        rest = nbytes - sum(sizes)
+        if rest > 0 and rng.random() < 0.5:
+            s = rng.choice([1, 2, 3, 5, 4096]) if rest <= 20000 else rng.choice([4096, 65536])
+            sizes += [s] * (rest // s)
+        L = min(nchar, rng.choice([nchar, nchar, 1000, 4096, 65536, 100000]))
+        strlens = [[L, nchar // L]]
+    case = {'kind': 'scale', 'sub': 'stream', 'flavour': flavour, 'enc': enc, 'segs': segs,
+            'strlens': strlens, 'sizes': rl1(sizes)}
+    case.update(model=nbytes <= limit, strs=[], chunks=[])
+    return case
+
+
+def gen_scale_dump(rng, enc, n, writer=None):
+    words = [cps(''.join(piece(rng, enc) for _ in range(rng.choice([0, 1, 2, 3, 6])))) for _ in range(rng.randint(3, 9))]
+    return {'kind': 'scale', 'sub': 'dump', 'flavour': 'dump', 'enc': enc, 'n': n, 'words': words,
+            'writer': writer or rng.choice(['dump', 'dump', 'dump', 'encode']),
+            'compression': rng.choice([None, None, 'gzip']), 'model': False, 'strs': [], 'chunks': []}
+
+
+def gen_scale(rng, tier):
+    """quick: every flavour in every encoding it makes sense for, the small ones also evaluated in Coq; more than
+    1024 items (2000, 5000, a random number) written by json.dump_to_file in each encoding with a BOM;
+    thorough: more of each, larger, sizes off the powers of two, pending bytes inside the BOM as well"""
+    lim = MODEL_LIMIT[tier]
+    out = []
+    if tier == 'search':
+        for _ in range(2):
+            out.append(gen_scale_stream(rng, 'big-chunk', rng.choice(SCALE_ENCS), [BIG[0]], lim, jitter=True))
+        out.append(gen_scale_dump(rng, rng.choice(['utf-16', 'utf-32']), rng.randrange(1025, 3000)))
+        return out
+    # two large chunks with an odd small one between them: whatever the first cut, they arrive at different
+    # alignments (utf-16: at an odd offset and between / on the surrogates; utf-32: at two of the offsets 1-3)
+    firsts = [BIG[0], BIG[1], rng.choice(BIG[:2])]
+    rng.shuffle(firsts)
+    for enc, b in zip(SCALE_ENCS, firsts):
+        out.append(gen_scale_stream(rng, 'big-chunk', enc, [b, BIG[0]], lim))
+        out.append(gen_scale_stream(rng, 'big-chunk', enc, rng.choice([[BIG[2]], [BIG[2], BIG[0]], [BIG[1], BIG[2]]]), lim))
+    out.append(gen_scale_stream(rng, 'big-chunk', rng.choice(SCALE_ENCS), [BIG[0], BIG[1]], lim, jitter=True))
+    out.append(gen_scale_stream(rng, 'big-chunk', 'latin-1', [rng.choice(BIG)], lim))
+    for enc in rng.sample(SCALE_ENCS, 2):
+        out.append(gen_scale_stream(rng, 'big-string', enc, [rng.choice([3, 4, 6]) * BIG[2], rng.choice(BIG)], lim))
+    encs = rng.sample(SCALE_ENCS, 2)
+    out.append(gen_scale_stream(rng, 'astral', encs[0], [rng.choice(BIG[:2])], lim))
+    out.append(gen_scale_stream(rng, 'astral', encs[1], [BIG[2], BIG[0]], lim))
+    out.append(gen_scale_stream(rng, 'one-char', rng.choice(SCALE_ENCS), [rng.choice([2000, 3000, 5000])], lim))
+    out.append(gen_scale_stream(rng, 'one-char', rng.choice(ENCS), [rng.randrange(1025, 8000)], lim))
+    counts = [2000, 5000]
+    rng.shuffle(counts)
+    for enc, n in zip(['utf-16', 'utf-32'], counts):
+        out.append(gen_scale_dump(rng, enc, n, writer='dump'))
+        out.append(gen_scale_dump(rng, enc, rng.choice([1025, 2049, rng.randrange(1025, 6000)])))
+    out.append(gen_scale_dump(rng, 'utf-8', rng.choice([2000, 5000, rng.randrange(1025, 6000)])))
+    out.append(gen_scale_dump(rng, 'latin-1', rng.choice([2000, 5000, rng.randrange(1025, 6000)])))
+    if tier == 'thorough':
+        for enc in ENCS:
+            for bigs in ([BIG[0]], [BIG[1]], [BIG[2]], [BIG[0], BIG[0], BIG[1]], [BIG[2], BIG[0]], [BIG[2], BIG[2], BIG[1]]):
+                out.append(gen_scale_stream(rng, 'big-chunk', enc, bigs, lim, jitter=bigs != [BIG[2]] and rng.random() < 0.7))
+            out.append(gen_scale_stream(rng, 'big-string', enc, [rng.choice([2, 4, 8, 16]) * BIG[2], rng.choice(BIG)], lim))
+            out.append(gen_scale_stream(rng, 'big-string', enc, [3 * BIG[2], BIG[0]], lim, jitter=True))
+            out.append(gen_scale_stream(rng, 'one-char', enc, [rng.choice([2000, 5000, 20000])], lim))
+            out.append(gen_scale_stream(rng, 'one-char', enc, [rng.randrange(1025, 9000)], lim))
+            if enc != 'latin-1':
+                for bigs in ([BIG[0]], [BIG[1], BIG[0]], [BIG[2]]):
+                    out.append(gen_scale_stream(rng, 'astral', enc, bigs, lim, jitter=rng.random() < 0.5))
+            for n in (1023, 1024, 1025, 2000, 2049, 5000, rng.randrange(1025, 12000), 20000):
+                out.append(gen_scale_dump(rng, enc, n, writer='dump' if n in (2000, 5000) else None))
+    return out
+
+
+def spread(cases, extra):
+    """puts the (expensive) scale cases into the middle of different shards of the correspondence stage"""
+    nsh = max(1, len(cases) // SHARD)
+    groups = [extra[s::nsh] for s in range(nsh)]
+    out = list(cases)
+    for s in reversed(range(nsh)):
+        pos = s * SHARD + SHARD // 2
+        out[pos:pos] = groups[s]
+    return out
+
+
+def inside_char(enc, ref, off):
+    """does a cut at byte offset off of the encoded stream ref split a character or the BOM? (O(1))"""
+    nb = len(BOM[enc])
+    if off <= 0 or off >= len(ref):
+        return False
+    if off < nb:
+        return True
+    if enc == 'utf-8':
+        return ref[off] & 0xC0 == 0x80
+    if enc == 'utf-16':
+        return off % 2 == 1 or (off - nb >= 2 and 0xD8 <= ref[off - 1] <= 0xDB)
+    if enc == 'utf-32':
+        return off % 4 != 0
+    return False
+
+
+def pack_run(r, text):
+    items = [o for st in r['steps'] for o in st]
+    return {'out': pack_text(''.join(items)) if text else pack(b''.join(items)), 'lens': rl1([len(o) for o in items]),
+            'counts': rl1([len(st) for st in r['steps']]), 'err': r['err'], 'end': r['end']}
+
+
+def unpack_run(p, text):
+    """-> (steps: list of lists of str / bytes, err, end)"""
+    whole = unpack_text(p['out']) if text else unpack(p['out'])
+    items = split_by(whole, p['lens'])[:sum(n for _, n in p['lens'])]
+    steps, pos = [], 0
+    for k in unrl1(p['counts']):
+        steps.append(items[pos:pos + k])
+        pos += k
+    return steps, p['err'], p['end']
+
+
+def drive_once(op, inputs):
+    """ONE subscription of a fresh operator, driven by hand (an exception of the codec ends it at that step)"""
+    import rx
+    src = HandSource()
+    return drive_sub(op(rx.create(src)), src, inputs, None)
+
+
+def shape_of(enc, ref, chunks):
+    """what the chunking looks like (for nontrivial/describe; not judged)"""
+    inside, big_pending, off = 0, 0, 0
+    for c in chunks[:-1] if chunks else []:
+        if len(c) >= BIG[0] and inside_char(enc, ref, off):
+            big_pending += 1
+        off += len(c)
+        inside += inside_char(enc, ref, off)
+    if chunks and len(chunks[-1]) >= BIG[0] and inside_char(enc, ref, off):
+        big_pending += 1
+    return {'bytes': len(ref), 'chunks': len(chunks), 'max_chunk': max([len(c) for c in chunks] or [0]),
+            'cuts_inside': inside, 'big_chunks_while_pending': big_pending}
+
+
+def run_scale(case):
+    import rxsci as rs
+    enc = case['enc']
+    if case['sub'] == 'dump':
+        return run_scale_dump(case)
+    text = scale_text(case)
+    strs = split_by(text, case['strlens'])
+    try:
+        ref = text.encode(enc)
+    except UnicodeError:                      # (not generated) unencodable text: only the encode side says something
+        ref = b''
+    chunks = split_by(ref, case['sizes'])
+    e = drive_once(rs.data.encode(enc), strs)
+    d = drive_once(rs.data.decode(enc), chunks)
+    shape = shape_of(enc, ref, chunks)
+    shape.update(chars=len(text), strings=len(strs), max_string=max([len(s) for s in strs] or [0]),
+                 astral_chars=len(text.encode('utf-16-le', 'surrogatepass')) // 2 - len(text))
+    return {'enc': pack_run(e, False), 'dec': pack_run(d, True), 'enc_err': e['err'], 'dec_err': d['err'], 'shape': shape}
+
+
+def dump_items(case):
+    words = [''.join(chr(c) for c in w) for w in case['words']]
+    return [{'i': i, 't': words[i % len(words)] * (1 + i % 3)} for i in range(case['n'])]
+
+
+def canon_objs(objs):
+    return '\n'.join(pyjson.dumps(o, ensure_ascii=False, sort_keys=True) for o in objs)
+
+
+def run_scale_dump(case):
+    import rx
+    import rxsci as rs
+    import rxsci.io.file as file
+    enc, comp = case['enc'], case.get('compression')
+    items = dump_items(case)
+    os.makedirs(FILES, exist_ok=True)
+    fn = os.path.join(FILES, 's%d.json' % os.getpid())
+    try:
+        lines, _ = collect(rx.from_(items).pipe(rs.container.json.dump()))
+        if case['writer'] == 'dump':
+            _, wend = collect(rx.from_(items).pipe(rs.container.json.dump_to_file(fn, encoding=enc, compression=comp)))
+        else:
+            stages = [rs.data.encode(enc)] + ([rs.compression.z.compress()] if comp else []) + [file.write(file=fn, mode='wb')]
+            _, wend = collect(rx.from_(lines).pipe(*stages))
+        with open(fn, 'rb') as f:
+            raw = f.read()
+        unzip_err = None
+        if comp:
+            try:
+                data = gzip.decompress(raw)
+            except Exception as ex:
+                data, unzip_err = b'', type(ex).__name__
+        else:
+            data = raw
+        loaded, lend = collect(rs.container.json.load_from_file(fn, encoding=enc, compression=comp))
+    finally:
+        if os.path.exists(fn):
+            os.remove(fn)
+    blocks = split_by(data, [[BLOCK, len(data) // BLOCK]])     # what the decode stage of load_from_file is given
+    e = drive_once(rs.data.encode(enc), lines)
+    d = drive_once(rs.data.decode(enc), blocks)
+    shape = shape_of(enc, data, blocks)
+    shape.update(items=len(items), file_bytes=len(raw))
+    return {'write_end': wend, 'unzip_err': unzip_err, 'file': pack(data), 'lines': pack_text(''.join(lines)),
+            'line_lens': rl1([len(l) for l in lines]), 'loaded': pack_text(canon_objs(loaded)), 'n_loaded': len(loaded),
+            'load_end': lend, 'enc': pack_run(e, False), 'dec': pack_run(d, True), 'enc_err': e['err'],
+            'dec_err': d['err'], 'shape': shape}
+
+
+def first_diff(a, b):
+    n = min(len(a), len(b))
+    if a[:n] == b[:n]:
+        return n
+    lo, hi = 0, n                              # a[:lo] == b[:lo], a[:hi] != b[:hi]
+    while hi - lo > 1:
+        mid = (lo + hi) // 2
+        if a[:mid] == b[:mid]:
+            lo = mid
+        else:
+            hi = mid
+    return lo
+
+
+def where_scale(case, obs, got_text, text):
+    sh = obs.get('shape', {})
+    at = first_diff(got_text, text)
+    return (' [scale/%s: %d bytes in %d chunks, largest %d, %d cuts inside a character, %d chunks >= 64 KiB while a '
+            'partial character was pending; decoded text: %d of %d characters, first difference at character %d: '
+            'got %r want %r]' % (case.get('flavour'), sh.get('bytes', -1), sh.get('chunks', -1), sh.get('max_chunk', -1),
+                                 sh.get('cuts_inside', -1), sh.get('big_chunks_while_pending', -1), len(got_text),
+                                 len(text), at, got_text[at:at + 8], text[at:at + 8]))
+
+
+def oracle_scale(case, obs):
+    enc = case['enc']
+    esteps, eerr, eend = unpack_run(obs['enc'], False)
+    dsteps, derr, dend = unpack_run(obs['dec'], True)
+    enc_items = [o for st in esteps for o in st]
+    got_text = ''.join(o for st in dsteps for o in st)
+    if case['sub'] == 'stream':
+        text = scale_text(case)
+        try:
+            ref = text.encode(enc)
+        except UnicodeError:
+            return None if eerr else {'sig': enc + ':encode-silent@scale', 'what': 'unencodable text did not raise'}
+        f = judge_wf(enc, text, ref, enc_items, eerr, eend, got_text, derr, dend)
+        return {'sig': f['sig'] + '@scale', 'what': f['what'] + where_scale(case, obs, got_text, text)} if f else None
+    # dump: the file must hold the one-shot encoding of the JSON lines of the items, the BOM once; it must read back
+    items = dump_items(case)
+    what = 'json.dump_to_file' if case['writer'] == 'dump' else 'json.dump | data.encode | file.write'
+    what += ' of %d items, %s%s: ' % (len(items), enc, ', ' + case['compression'] if case.get('compression') else '')
+    if obs['write_end'] != 'completed':
+        return {'sig': enc + ':file-write@scale', 'what': what + 'writing ended with %s' % obs['write_end']}
+    if obs['unzip_err']:
+        return {'sig': enc + ':file-unzip@scale', 'what': what + 'the file is not a gzip file (%s)' % obs['unzip_err']}
+    data = unpack(obs['file'])
+    text = unpack_text(obs['lines'])
+    lines = split_by(text, obs['line_lens'])
+    ok_lines = len(lines) == len(items)
+    if ok_lines:
+        try:
+            ok_lines = all(l.endswith('\n') and pyjson.loads(l) == it for l, it in zip(lines, items))
+        except ValueError:
+            ok_lines = False
+    if not ok_lines:
+        return {'sig': enc + ':file-lines@scale', 'what': what + 'json.dump() did not emit one JSON line per item'}
+    ref, le, bom = text.encode(enc), text.encode(LE[enc]), BOM[enc]
+    if data != ref:
+        if bom:
+            u = UNIT[enc]
+            units = [data[i:i + u] for i in range(0, len(data), u)]
+            marks = sum(1 for x in units if x == bom)
+            if marks != 1 + text.count('\ufeff') and b''.join(x for x in units if x != bom) == text.replace('\ufeff', '').encode(LE[enc]):
+                return {'sig': enc + ':bom-not-once@scale', 'what': what + 'the byte-order mark is in the file %d times, '
+                        'not once at the front (not counting the %d U+FEFF characters of the items); first difference '
+                        'from the encoding of the lines at byte %d of %d' % (
+                            marks - text.count('\ufeff'), text.count('\ufeff'), first_diff(data, ref), len(data))}
+        at = first_diff(data, ref)
+        return {'sig': enc + ':file-bytes@scale', 'what': what + 'the %d bytes written are not the encoding of the lines '
+                '(%d bytes): first difference at byte %d: %r / %r' % (len(data), len(ref), at, data[at:at + 12], ref[at:at + 12])}
+    if obs['load_end'] != 'completed' or unpack_text(obs['loaded']) != canon_objs(items):
+        return {'sig': enc + ':file-readback@scale', 'what': what + 'json.load_from_file ended %s with %d of %d objects, or '
+                'different ones' % (obs['load_end'], obs['n_loaded'], len(items))}
+    f = judge_wf(enc, text, ref, enc_items, eerr, eend, got_text, derr, dend)
+    if f:
+        return {'sig': f['sig'] + '@scale-file-blocks', 'what': what + f['what'] + where_scale(case, obs, got_text, text)}
+    return None
+
+
+def rlp(s, periods, conv):
+    """run-length form [[block, repetitions], ...] of a str / bytes that is periodic over long stretches (candidate
+    period lengths given); what is not periodic goes into blocks repeated once"""
+    out, i, n, lit = [], 0, len(s), 0
+    periods = sorted(set(p for p in periods if p > 0))
+    while i < n:
+        best = None
+        for p in periods:
+            if i + 2 * p <= n and s[i:i + p] == s[i + p:i + 2 * p]:
+                pat, k = s[i:i + p], 2
+                while s.startswith(pat, i + k * p):
+                    k += 1
+                if best is None or k * p > best[0] * best[1]:
+                    best = (p, k)
+        if best is None:
+            i += 1
+            continue
+        if lit < i:
+            out.append([conv(s[lit:i]), 1])
+        out.append([conv(s[i:i + best[0]]), best[1]])
+        i += best[0] * best[1]
+        lit = i
+    if lit < n:
+        out.append([conv(s[lit:n]), 1])
+    return out
+
+
+def rl_lens(lens):
+    """run-length form of a list of lengths, as blocks of lengths (periodic texts give periodic lengths)"""
+    if len(lens) <= 64 or max(lens) >= 0x110000:
+        return [[[v], n] for v, n in rl1(lens)]
+    return rlp(''.join(chr(x) for x in lens), range(1, 65), cps)
+
+
+def coq_term_scale(case, obs):
+    """the whole case written flat and run-length coded for the model (CScale), when it is small enough; else
+    CSkip (the dump cases are judged by the oracle only: their lines are not periodic)"""
+    if not case.get('model') or case['sub'] != 'stream':
+        return 'CSkip'
+    enc = case['enc']
+    e, d = obs['enc'], obs['dec']
+    text = scale_text(case)
+    tp = [len(p) for p, _ in case['segs']]
+    bp = [len(text_of([p]).encode(LE[enc])) for p, _ in case['segs']]
+    t = lambda x: c_rl(rlp(x, tp, cps))
+    b = lambda x: c_rl(rlp(x, bp, list))
+    pairs = lambda r: c_rl([[[v], n] for v, n in r])
+    if any(v != 1 for v, _ in e['counts'] + d['counts']):
+        return 'CRaised'            # a step with no item or with several: nothing the model ever says
+    return 'CScale %s %s %s %s %s %s %s %s %s %s %s %s %s' % (
+        COQ_ENC[enc],
+        t(text), pairs(case['strlens']), b(unpack(e['out'])), c_rl(rl_lens(unrl1(e['lens']))), COQ_ERR[e['err']],
+        c_bool(e['end'] == 'completed'),
+        b(text.encode(enc)), pairs(case['sizes']), t(unpack_text(d['out'])), c_rl(rl_lens(unrl1(d['lens']))),
+        COQ_ERR[d['err']], c_bool(d['end'] == 'completed'))
+
+
 def generate(rng, tier):
     n = {'quick': 520, 'thorough': 15000, 'search': 400}[tier]
     cases = []
@@ -302,7 +811,8 @@ def generate(rng, tier):
         cases += fixed_cases() + fixed_bad() + [with_subs(rng, c) for c in fixed_cases()]
     if tier == 'thorough':
         cases += exhaustive_cuts(3)
-    return cases
+    scale = gen_scale(rng, tier)                # drawn last: the cases above are what they were without it
+    return cases + scale if tier == 'search' else spread(cases, scale)
 
 
 def drive(op, inputs):
@@ -386,6 +896,8 @@ def run_impl(case):
     import rxsci as rs
     if case['kind'] == 'file':
         return run_file(case)
+    if case['kind'] == 'scale':
+        return run_scale(case)
     enc = case['enc']
     strs = [''.join(chr(c) for c in s) for s in case['strs']]
     chunks = [bytes(c) for c in case['chunks']]
@@ -512,6 +1024,8 @@ def oracle(case, obs):
         return {'sig': 'codec:harness-raised', 'what': 'running encode/decode failed with %s' % obs['raised']}
     if case['kind'] == 'file':
         return oracle_file(case, obs)
+    if case['kind'] == 'scale':
+        return oracle_scale(case, obs)
     f = judge(case, obs)
     if f or not case.get('subs'):
         return f
@@ -601,6 +1115,30 @@ def oracle_file(case, obs):
     return None
 
 
+def judge_wf(enc, text, ref, enc_items, enc_err, enc_end, got_text, dec_err, dec_end):
+    """well-formed input: `text` (ref = its one-shot encoding) was given to encode, which emitted the byte strings
+    enc_items; a re-chunking of ref was given to decode, which emitted got_text in all"""
+    got_bytes = b''.join(enc_items)
+    if enc_err or enc_end != 'completed':
+        return {'sig': enc + ':encode-raised', 'what': 'encode ended with %s/%s on encodable strings'
+                % (enc_err, enc_end)}
+    if got_bytes != ref:
+        le = text.encode(LE[enc])
+        nb = len(BOM[enc])
+        stripped = b''.join(o[nb:] if nb and o.startswith(BOM[enc]) else o for o in enc_items)
+        if BOM[enc] and got_bytes != BOM[enc] + le and (stripped == le or got_bytes == le):
+            return {'sig': enc + ':bom-not-once', 'what': 'BOM not written exactly once at the front: %r'
+                    % got_bytes[:24]}
+        return {'sig': enc + ':encode-bytes', 'what': 'encode output %r != %r' % (got_bytes[:24], ref[:24])}
+    if dec_err or dec_end != 'completed':
+        return {'sig': enc + ':decode-raised', 'what': 'decode of a re-chunked valid stream ended with %s/%s'
+                % (dec_err, dec_end)}
+    if got_text != text:
+        return {'sig': enc + ':decode-text', 'what': 'character lost/duplicated/replaced: got %r want %r'
+                % (got_text[:16], text[:16])}
+    return None
+
+
 def judge(case, obs):
     enc = case['enc']
     got_bytes = b''.join(bytes(o) for st in obs['enc_steps'] for o in st)
@@ -616,25 +1154,8 @@ def judge(case, obs):
         if ref is None or data != ref:      # a mislabelled (e.g. hand-written corpus) case: judge it as malformed
             kind = 'bad-enc' if ref is None else 'bad-dec'
     if kind in ('wf', 'cuts'):
-        if obs['enc_err'] or obs['enc_end'] != 'completed':
-            return {'sig': enc + ':encode-raised', 'what': 'encode ended with %s/%s on encodable strings'
-                    % (obs['enc_err'], obs['enc_end'])}
-        if got_bytes != ref:
-            le = text.encode(LE[enc])
-            nb = len(BOM[enc])
-            stripped = b''.join(bytes(o)[nb:] if nb and bytes(o).startswith(BOM[enc]) else bytes(o)
-                                for st in obs['enc_steps'] for o in st)
-            if BOM[enc] and got_bytes != BOM[enc] + le and (stripped == le or got_bytes == le):
-                return {'sig': enc + ':bom-not-once', 'what': 'BOM not written exactly once at the front: %r'
-                        % got_bytes[:24]}
-            return {'sig': enc + ':encode-bytes', 'what': 'encode output %r != %r' % (got_bytes[:24], ref[:24])}
-        if obs['dec_err'] or obs['dec_end'] != 'completed':
-            return {'sig': enc + ':decode-raised', 'what': 'decode of a re-chunked valid stream ended with %s/%s'
-                    % (obs['dec_err'], obs['dec_end'])}
-        if got_text != text:
-            return {'sig': enc + ':decode-text', 'what': 'character lost/duplicated/replaced: got %r want %r'
-                    % (got_text[:16], text[:16])}
-        return None
+        return judge_wf(enc, text, ref, [bytes(o) for st in obs['enc_steps'] for o in st], obs['enc_err'],
+                        obs['enc_end'], got_text, obs['dec_err'], obs['dec_end'])
     if kind == 'bad-enc':
         try:
             text.encode(enc)
@@ -681,6 +1202,9 @@ def cut_offsets(case):
 
 
 def nontrivial(case, obs):
+    if case['kind'] == 'scale':     # a cut inside a character (dump: the BOM must not be repeated / a block boundary inside one)
+        sh = obs.get('shape', {}) if isinstance(obs, dict) else {}
+        return sh.get('cuts_inside', 0) > 0 or (sh.get('items', 0) > 1024 and bool(BOM[case['enc']]))
     if case['kind'] == 'file':
         return isinstance(obs, dict) and any(x > 0 for x in obs.get('straddle', []))
     if case['kind'] not in ('wf', 'cuts') or len(case['chunks']) < 2:
@@ -696,8 +1220,29 @@ def describe(cases, obs):
          'decode_errors_observed': {}, 'encode_errors_observed': 0, 'max_stream_bytes': 0,
          'resubscribed_cases': 0, 'resubscriptions': 0, 'subscriptions_disposed_early': 0,
          'disposed_inside_character_or_bom': 0, 'resubscribed_by_sharing': {}, 'files': 0, 'file_bytes_max': 0,
-         'file_block_boundaries': 0, 'file_boundaries_inside_character': {}}
+         'file_block_boundaries': 0, 'file_boundaries_inside_character': {},
+         'scale': {'cases': 0, 'by_flavour': {}, 'by_encoding': {}, 'compared_with_model': 0, 'oracle_only': 0,
+                   'max_stream_bytes': 0, 'max_chunk_bytes': 0, 'max_string_chars': 0, 'max_chunks': 0,
+                   'max_strings': 0, 'chunks_ge_64KiB_while_partial_character_pending': 0,
+                   'cuts_inside_character': 0, 'max_astral_chars': 0, 'items_dumped': [], 'gzip_files': 0}}
     for c, o in zip(cases, obs):
+        if c['kind'] == 'scale':
+            sc, sh = d['scale'], (o.get('shape', {}) if isinstance(o, dict) else {})
+            d['by_encoding'][c['enc']] = d['by_encoding'].get(c['enc'], 0) + 1
+            d['by_kind']['scale'] = d['by_kind'].get('scale', 0) + 1
+            sc['cases'] += 1
+            sc['by_flavour'][c.get('flavour')] = sc['by_flavour'].get(c.get('flavour'), 0) + 1
+            sc['by_encoding'][c['enc']] = sc['by_encoding'].get(c['enc'], 0) + 1
+            sc['compared_with_model' if c.get('model') else 'oracle_only'] += 1
+            for k, key in (('max_stream_bytes', 'bytes'), ('max_chunk_bytes', 'max_chunk'), ('max_string_chars', 'max_string'),
+                           ('max_chunks', 'chunks'), ('max_strings', 'strings'), ('max_astral_chars', 'astral_chars')):
+                sc[k] = max(sc[k], sh.get(key, 0))
+            sc['chunks_ge_64KiB_while_partial_character_pending'] += sh.get('big_chunks_while_pending', 0)
+            sc['cuts_inside_character'] += sh.get('cuts_inside', 0)
+            if c['sub'] == 'dump':
+                sc['items_dumped'].append('%s:%d' % (c['enc'], c['n']))
+                sc['gzip_files'] += bool(c.get('compression'))
+            continue
         if c['kind'] == 'file':
             d['by_encoding'][c['enc']] = d['by_encoding'].get(c['enc'], 0) + 1
             d['by_kind']['file'] = d['by_kind'].get('file', 0) + 1
@@ -771,6 +1316,8 @@ def c_run(k, r):
 def coq_term(case, obs):
     if 'raised' in obs or obs['enc_err'] not in COQ_ERR or obs['dec_err'] not in COQ_ERR:
         return 'CRaised'
+    if case['kind'] == 'scale':
+        return coq_term_scale(case, obs)
     if case['kind'] == 'file':
         rss = lambda xs: c_list([c_rl(x) for x in xs])
         return 'CFileRL %s %s %s %s %s %s %s %s %s' % (
@@ -799,6 +1346,11 @@ def coq_term(case, obs):
 
 
 def coq_model_expr(case):
+    if case['kind'] == 'scale':     # printed for the reader only: the model on the first characters, cut after 3 bytes
+        head = (scale_text(case) if case['sub'] == 'stream' else pyjson.dumps(dump_items(case)[:1]))[:6]
+        ref = list(head.encode(case['enc']))
+        return '(encode %s %s, decode %s %s)' % (COQ_ENC[case['enc']], nss([cps(head)]), COQ_ENC[case['enc']],
+                                                 nss([ref[:3], ref[3:]]))
     if case['kind'] == 'file':      # the neighbourhood of the first boundary is what matters; printed for the reader only
         ch = cps(chr(case['cp']).encode(LE[case['enc']]).decode('latin-1'))
         return '(decode %s %s)' % (COQ_ENC[case['enc']], nss([list(BOM[case['enc']]) + ch[:case['k']], ch[case['k']:]]))
@@ -810,6 +1362,11 @@ def neighbours(case, rng):
     """other chunkings of the same stream, and the same stream cut short"""
     if case['kind'] == 'file':
         return [dict(case, k=k) for k in range(0, 5) if k % UNIT[case['enc']] == 0]
+    if case['kind'] == 'scale':     # the same text under other chunkings / the same items in the other encodings
+        if case['sub'] == 'dump':
+            return [dict(case, enc=e, model=False) for e in ENCS if e != case['enc']]
+        return [dict(case, model=False, sizes=[[rng.randrange(1, 8), 1], [rng.choice(BIG[:2]), rng.randrange(1, 4)]])
+                for _ in range(4)]
     data = sum(case['chunks'], [])
     out = []
     if not case.get('subs'):
@@ -836,11 +1393,19 @@ CLAIM = {
             'tied to rxsci/data/codec.py + CPython by evaluating it in Coq on the inputs the real encode/decode were '
             'run on: per-item bytes, per-chunk code points, final flushes and (malformed inputs) the step and class '
             'of the escaping exception are compared; all 1- and 2-cut (thorough: 3-cut) placements of short texts '
-            'in every encoding are included.',
+            'in every encoding are included. A SCALE family runs the same comparison on large inputs: chunks of '
+            '64 KiB, 128 KiB and 1 MiB that arrive while the decoder holds a partial character (odd offset / between '
+            'surrogates / inside a utf-32 unit / inside a utf-8 sequence / inside the BOM), strings of several MiB, '
+            'thousands of one-character strings and 1-5 byte chunks, long runs of code points above U+FFFF, and '
+            'files of 1025-20000 items written by json.dump_to_file in every encoding (BOM once, read back equal); '
+            'all of them are judged by CPython one-shot codecs, and the stream cases up to 300 KiB (thorough 1.2 MiB) '
+            'are evaluated in Coq as well.',
     'note': 'Trusted: Coq kernel+VM; hand-written model of codec.py and of CPython\'s incremental codecs (tied by '
             'correspondence only); little-endian host. Malformed streams and unencodable strings are modelled '
             'explicitly (error results) and corresponded, but the theorems speak about well-formed input only. '
-            'incremental=False is out of scope (it is chunk-boundary DEPENDENT by design).',
+            'incremental=False is out of scope (it is chunk-boundary DEPENDENT by design). Scale cases above the size '
+            'limit and the dump_to_file scale cases are NOT compared with the model (term CSkip): for them only the '
+            'model-free oracle speaks.',
     'technique': 'Coq proof (bit arithmetic as div/mod closed by lia with euclidean-division equations; generic '
                  'incremental parser with progress + prefix stability; BOM invariant over the chunk list) + '
                  'vm_compute correspondence',
